@@ -1935,7 +1935,12 @@ struct GlobalArgs {
     dirty_repository: bool,
 
     /// Number of threads for validation
-    #[arg(long, value_name = "COUNT")]
+    #[arg(
+        long,
+        value_name = "COUNT",
+        value_parser = clap::builder::RangedU64ValueParser::<usize>::new()
+            .range(..=u16::MAX as u64)
+    )]
     validation_threads: Option<usize>,
 
     /// Log more information, twice for even more
@@ -1988,7 +1993,12 @@ struct ServerArgs {
     expire: Option<u64>,
 
     /// Number of history items to keep [default 10]
-    #[arg(long, value_name = "COUNT")]
+    #[arg(
+        long,
+        value_name = "COUNT",
+        value_parser = clap::builder::RangedU64ValueParser::<usize>::new()
+            .range(..=u16::MAX as u64)
+    )]
     history: Option<usize>,
 
     /// Listen on address/port for RTR
